@@ -53,14 +53,15 @@ PsrDiff(prefix, a, b, dcmask) ==
   IN [k \in 1..Len(CpsrFields) |-> IF IsZeroW(WAnd(df, CpsrFields[k][2])) THEN "" ELSE prefix \o CpsrFields[k][1]]
 NonEmpty(sq) == SelectSeq(sq, LAMBDA c : c # "")
 
-ImplByte(pre, post, d, off) == DevByte(post.mem, d, off)
-StateDiff(spec, impl, r) ==
+\* n0 = length of the pre-state's memory log: only cells written after it can differ
+StateDiffN(spec, impl, r, n0) ==
   LET regs == SeqOfSet({n \in RNames : n \notin r.dcR /\ spec.R[n] # impl.R[n]})
       sp   == SeqOfSet({m \in SpsrNames : spec.spsr[m] # impl.spsr[m]})
       sy   == SeqOfSet({n \in DOMAIN spec.sys : n \notin r.dcS /\
                           (IF n = "DFSR" THEN WAnd(WXor(spec.sys[n], impl.sys[n]), WNot(r.dcD)) # Zero
                            ELSE spec.sys[n] # impl.sys[n])})
-      cells == (Touched(spec.mem) \cup Touched(impl.mem)) \ r.dcM
+      newc(m) == {<<m.w[k][1], m.w[k][2]>> : k \in (n0 + 1)..Len(m.w)}
+      cells == (newc(spec.mem) \cup newc(impl.mem)) \ r.dcM
       badcells == {c \in cells : DevByte(spec.mem, c[1], c[2]) # DevByte(impl.mem, c[1], c[2])}
   IN [k \in 1..Len(regs) |-> "R." \o regs[k]] \o
      NonEmpty(PsrDiff("cpsr.", spec.cpsr, impl.cpsr, r.dcC)) \o
@@ -106,15 +107,16 @@ StepVerdict(e, pre, post) ==
       \* C05 negative path on encodings the specification does not cover: the condition is known to fail
       nopclause == IF r.exact \/ ~r.condfail \/ e.nunp > 0 \/ host \/ ~RegsTypeOK(post) THEN <<>>
                    ELSE IF out \in {"undef", "notimpl"} THEN <<>>
-                   ELSE IF out = "completed" /\ StateDiff(r.nop, post, r) = <<>> /\ osys = <<>> THEN <<>>
+                   ELSE IF out = "completed" /\ StateDiffN(r.nop, post, r, Len(pre.mem.w)) = <<>> /\ osys = <<>> THEN <<>>
                    ELSE <<"nop-on-condfail">>
       exact == IF ~r.exact \/ host \/ ~RegsTypeOK(post) THEN <<>>
-               ELSE (IF out # r.out THEN <<"outcome">> ELSE <<>>) \o StateDiff(r.s, post, r) \o
+               ELSE (IF out # r.out THEN <<"outcome">> ELSE <<>>) \o StateDiffN(r.s, post, r, Len(pre.mem.w)) \o
                     (IF osys # <<>> THEN <<"sys.other">> ELSE <<>>)
       \* expected values of mismatching registers / memory cells (diagnostics only)
       why == IF exact = <<>> THEN <<>>
              ELSE LET regs == SeqOfSet({n \in RNames : n \notin r.dcR /\ r.s.R[n] # post.R[n]})
-                      cells == SeqOfSet({c \in (Touched(r.s.mem) \cup Touched(post.mem)) \ r.dcM :
+                      cells == SeqOfSet({c \in ({<<r.s.mem.w[k][1], r.s.mem.w[k][2]>> : k \in (Len(pre.mem.w) + 1)..Len(r.s.mem.w)} \cup
+                                 {<<post.mem.w[k][1], post.mem.w[k][2]>> : k \in (Len(pre.mem.w) + 1)..Len(post.mem.w)}) \ r.dcM :
                                            DevByte(r.s.mem, c[1], c[2]) # DevByte(post.mem, c[1], c[2])})
                   IN [k \in 1..Len(regs) |-> <<regs[k], r.s.R[regs[k]]>>] \o
                      [k \in 1..Len(cells) |-> <<"mem", cells[k][1] - 1, cells[k][2], DevByte(r.s.mem, cells[k][1], cells[k][2])>>] \o
@@ -138,7 +140,7 @@ ExcVerdict(e, pre, post) ==
   IN IF e.out # "completed" THEN [id |-> e.id, v |-> <<"hosterror">>, path |-> r.path]
      ELSE IF ~RegsTypeOK(post) THEN [id |-> e.id, v |-> <<"range">>, path |-> r.path]
      ELSE [id |-> e.id, path |-> r.path,
-           v |-> StateDiff(exp, post, r) \o (IF osys # <<>> THEN <<"sys.other">> ELSE <<>>)]
+           v |-> StateDiffN(exp, post, r, Len(pre.mem.w)) \o (IF osys # <<>> THEN <<"sys.other">> ELSE <<>>)]
 
 ResetVerdict(e, pre, post) ==
   LET checks == ResetOK(pre, post) IN
@@ -171,7 +173,7 @@ MemApiVerdict(e, pre, post) ==
      ELSE IF x1.unp THEN [id |-> e.id, v |-> <<>>, path |-> "envelope:unpredictable:" \o a.n]
      ELSE IF expout = "notimpl" THEN [id |-> e.id, v |-> IF e.out = "notimpl" THEN <<>> ELSE <<"outcome">>, path |-> "notimpl:" \o x1.ni]
      ELSE [id |-> e.id, path |-> r.path,
-           v |-> (IF e.out # expout THEN <<"outcome">> ELSE <<>>) \o StateDiff(x1.s, post, r) \o
+           v |-> (IF e.out # expout THEN <<"outcome">> ELSE <<>>) \o StateDiffN(x1.s, post, r, Len(pre.mem.w)) \o
                  (IF osys # <<>> THEN <<"sys.other">> ELSE <<>>) \o
                  (IF isget /\ expout = "completed" /\ e.out = "completed" /\ e.res # rd.v THEN <<"value">> ELSE <<>>) \o
                  (IF a.n = "Translate" /\ expout = "completed" /\ e.out = "completed" /\ (e.res # <<pa.ext, pa.pa>>)
@@ -190,7 +192,7 @@ PsrApiVerdict(e, pre, post) ==
           [id |-> e.id, path |-> "psrapi:unpredictable",
            v |-> IF \A m \in SpsrNames : ~BadMode(pre.cfg, PM(post.spsr[m])) \/ PM(post.spsr[m]) = PM(pre.spsr[m]) THEN <<>> ELSE <<"badmode">>]
      ELSE [id |-> e.id, path |-> IF r.unp THEN "psrapi:unpredictable" ELSE res.path,
-           v |-> StateDiff(r.s, post, res2) \o (IF osys # <<>> THEN <<"sys.other">> ELSE <<>>)]
+           v |-> StateDiffN(r.s, post, res2, Len(pre.mem.w)) \o (IF osys # <<>> THEN <<"sys.other">> ELSE <<>>)]
 
 Verdict(e) ==
   LET pre  == Overlay(BaseState, e.pre)
